@@ -30,6 +30,9 @@ func init() {
 		{"C10", "bufviews", props.BufViews},
 		{"C02", "bufviews", props.BufViews},
 		{"C13", "msb", props.C13msb},
+		{"C12", "width", props.C12width},
+		{"C12", "shiftcount", props.C12shift},
+		{"C16", "descriptor", props.C16descriptor},
 		{"C14", "seencontract", props.C14seenContract},
 		{"C05", "native", props.C05native},
 		{"C12", "signdiff", props.C12signDiff},
